@@ -822,7 +822,7 @@ def evOps (s : Sys F) : Ev → Nat → Op → Prop
 the link at ANY index `j` after the event is obtained from its record before the event by a finite sequence
 of the per-link operations the event may apply to that link (`evOps`), at the event's clock and in the
 configured mode.  `hnr`: every event but `reload`, the one event that changes the link set — there the record of
-a retained link is UNCHANGED and only its index moves (`Lemmas/ReloadShell.lean: reload_frame`). -/
+a retained link is UNCHANGED and only its index moves (`Props/SysReload.lean: reload_frame`). -/
 theorem step_run (s : Sys F) (e : Ev) (hnr : e.isReload = false) :
     (step s e).1.links.length = s.links.length ∧
     ∀ (j : Nat) (l : FLink F), s.links[j]? = some l →
